@@ -455,8 +455,17 @@ func ruleS11(p *Prog, r *Report) {
 			if !ok {
 				return
 			}
-			if _, _, isWrapper := p.regWriteWrapper(fn); isWrapper {
-				return // the helper writes the register it is given; its callers retire the entry
+			_, _, inWrapper := p.regWriteWrapper(fn)
+			// a call of a helper that writes the register and retires the entry itself needs nothing more
+			if g := staticCallee(c); g != nil && g.Pkg == p.RootSSA {
+				if _, _, isW := p.regWriteWrapper(g); isW && p.wrapperRetires(g) {
+					n++
+					r.Ok(R, "retire-after-write:"+p.Name(fn)+":"+kind, p.InstrPos(in), "the helper that writes the register also retires the write-set entry")
+					return
+				}
+			}
+			if inWrapper {
+				return // decided at the call sites (the helper either retires the entry itself or its callers do)
 			}
 			v := callValue(c)
 			if v == nil {
@@ -630,4 +639,22 @@ func ruleS11(p *Prog, r *Report) {
 			"on the temporary-address path GenerateSlabID can return without advancing tempSlabIndex: two live temporary slabs get the same identifier and the second Store replaces the first")
 	}
 	r.Floor(R, "storage bookkeeping obligations", 6, n)
+}
+
+// wrapperRetires: a register-write helper deletes the write-set entry of the key it was given on every success path.
+func (p *Prog) wrapperRetires(g *ssa.Function) bool {
+	i, _, ok := p.regWriteWrapper(g)
+	if !ok || i >= len(g.Params) {
+		return false
+	}
+	key := g.Params[i]
+	isDel := func(z ssa.Instruction) bool {
+		if cc, ok := isBuiltinCall(z, "delete"); ok && len(cc.Args) == 2 {
+			if fr, ok := asLoadedField(cc.Args[0]); ok && fr.is(storageT, "deltas") && sameValue(cc.Args[1], key) {
+				return true
+			}
+		}
+		return false
+	}
+	return successReturnAvoiding(g, nil, isDel) == nil
 }
